@@ -5,6 +5,8 @@ import ReqVerif.Model.Tags
 import ReqVerif.Model.Solver
 import ReqVerif.Model.GraphCheck
 import ReqVerif.Model.SourceWalk
+import ReqVerif.Model.RequiresPython
+import ReqVerif.Model.Filename
 /-!
 rvdriver: line protocol between the Python harness and the executable models.
 One JSON object per input line (`{"op": ..., ...}`), one JSON value per output line.
@@ -201,6 +203,22 @@ def opWalk (j : Json) : Json :=
   let r := Walk.findSourceDirs cfg (parseTree (jObj j "tree"))
   Json.arr (r.map fun p => jsonStrs p).toArray
 
+/-! ### requires-python and wheel names (C14) -/
+
+def opRequiresPython (j : Json) : Json :=
+  let i : RP.Interp := { major := jNat j "major", minor := jNat j "minor", micro := jNat j "micro" }
+  match RP.checkCompat i (jChars j "text") with
+  | .ok b => Json.mkObj [("ok", Json.bool b)]
+  | .valueError => Json.mkObj [("error", "ValueError")]
+  | .outOfModel => Json.mkObj [("out-of-model", Json.bool true)]
+
+def opWheelName (j : Json) : Json :=
+  match FN.parseWheel (jChars j "fn") with
+  | none => Json.null
+  | some w => Json.mkObj [("name", str w.name), ("ver", str w.ver),
+      ("build", match w.build with | some b => Json.str (str b) | none => Json.null),
+      ("pys", jsonStrs (w.pys.map str)), ("abi", str w.abi), ("plats", jsonStrs (w.plats.map str))]
+
 def dispatch (op : String) (j : Json) : Json :=
   match op with
   | "merge" => opMerge j
@@ -211,6 +229,8 @@ def dispatch (op : String) (j : Json) : Json :=
   | "tags" => opTags j
   | "history" => opHistory j
   | "walk" => opWalk j
+  | "requires-python" => opRequiresPython j
+  | "wheel-name" => opWheelName j
   | "compile" => opCompile j
   | "sort-cands" => opSortCands j
   | "hello" => Json.mkObj [("protocol", (1 : Nat))]
